@@ -18,7 +18,7 @@ EXTREME = [0, 1, 2, 15, 16, 17, 48, 49, 64, 65, 255, 1 << 16, 1 << 32, 1 << 40, 
 RULE = ('bases: fixture + shipped recursive/dex proofs (thorough: + all static layouts and the dynamic proof). every vector: emptied, truncated by '
         '1, truncated to 1, first element dropped (shift), lengthened by 1 and by 100; every numeric scalar at each extreme value '
         '(0,1,2,15..17,48,49,64,65,255,2^16,2^32,2^40,2^64-1,2^64,2^128,2^128+1,P-2,P-1); consistent re-declarations (small traces t=1..12 with '
-        'matching FRI/commitment configs, eval domain 2^65..2^87, composition columns 1/3); pairs of the above. plus config validation and '
+        'matching FRI/commitment configs, eval domain 2^65..2^87, composition columns 1/3, the column count of every table together with its decommitment length, FRI layer columns); pairs of the above. plus config validation and '
         'public-input validation taken alone (C11/C14 generators). non-trivial = all.')
 ASSUMPTIONS = ['a process abort (stack overflow, allocation failure) is recorded as a panic of that case; resource exhaustion itself is C17',
                'panics of the dynamic layout are compared on the real code only (its evaluators are translated, its mod.rs is not modelled)']
@@ -99,6 +99,23 @@ def cases(rng, tier, feats, drv_ok):
         for cc in (1, 3, 0):
             v = redeclared(b, b.v[PL.IDX['cfg.log_trace_domain_size']], comp_cols=cc)
             if v: add(b, v, 'redeclared:composition-columns', f'n_columns={cc}')
+        # cooperating sites: a table's declared column count changed TOGETHER with its decommitment length (so that the
+        # first length check passes and the mutant reaches the row hashing / the DEEP evaluation)
+        I = PL.IDX
+        for cfgk, valk in (('cfg.composition', 'witness.composition_decommitment'), ('cfg.traces.original', 'witness.traces_decommitment.original'),
+                           ('cfg.traces.interaction', 'witness.traces_decommitment.interaction')):
+            cols = b.v[I[cfgk]][0][0]; vals = b.v[I[valk]]
+            nq = len(vals) // cols if cols else 0
+            for cc in (0, 1, cols - 1, cols + 1, 2 * cols):
+                if cc < 0 or cc == cols: continue
+                v = PL.setp(b.v, I[cfgk], (0, 0), cc)
+                v = PL.setp(v, I[valk], (), (vals * 3)[:cc * nq])
+                add(b, v, 'redeclared:columns+values', f'{cfgk}={cc}')
+        for li in range(len(b.v[I['cfg.fri.inner_layers']])):
+            cols = b.v[I['cfg.fri.inner_layers']][li][0]
+            for cc in (0, 1, cols // 2, cols * 2):
+                if cc == cols: continue
+                add(b, PL.setp(b.v, I['cfg.fri.inner_layers'], (li, 0), cc), 'redeclared:fri-layer-columns', f'layer{li}={cc}')
         # pairs
         vecs = b.vectors()
         for _ in range(40 if tier == 'quick' else 400):
